@@ -581,7 +581,8 @@ example :
 list of callbacks already emitted, the translated Python method computes exactly the state, the callback stream and
 the return value of `step` for that operation.  Hence every theorem above about the nine mutators is a theorem about
 the translated source.  Of the read-only accessors the two predicates `is_active` / `is_operational` are translated as well
-(`c09_translation_agrees_is_active`, `…_is_operational`); `get_status`, `get_statistics`, `get_age` are NOT:
+(`c09_translation_agrees_is_active`, `…_is_operational`) and so is `get_age` (`c09_translation_agrees_get_age`);
+`get_status`, `get_statistics` are NOT:
 `timeRemaining`/`opsRemaining` are hand-written and tied to the code by the differential correspondence only (their lock
 shape is extracted by E3).
 All translated definitions (the nine methods and whatever helpers they call, under whatever name) are `@[simp]`; the
@@ -645,6 +646,20 @@ theorem c09_translation_agrees_is_operational (cfg : Cfg) (s : State) (evs : Lis
     Tr.is_operational cfg s evs = (s, evs, isOperational s) := by
   obtain ⟨ph, len, errs, ops, ren, rsn, st0, la, now, evn⟩ := s
   cases ph <;> simp [isOperational] <;> (repeat' split) <;> (try simp_all)
+
+theorem c09_translation_agrees_get_age (cfg : Cfg) (s : State) (evs : List Ev) :
+    Tr.get_age cfg s evs = (s, evs, age s) := by
+  obtain ⟨ph, len, errs, ops, ren, rsn, st0, la, now, evn⟩ := s
+  cases st0 <;> simp [age] <;> (repeat' split) <;> (try simp_all)
+
+/-- The time remaining never exceeds the lifetime limit, and it is what is left of the limit after the age:
+    `time_remaining + min(age, limit) = limit`. -/
+theorem c09_time_remaining_bounded (cfg : Cfg) (s : State) (t : Nat) (h : timeRemaining cfg s = some t) :
+    ∃ l a, cfg.life = some l ∧ age s = some a ∧ t ≤ l ∧ t + min a l = l := by
+  obtain ⟨ph, len, errs, ops, ren, rsn, st0, la, now, evn⟩ := s
+  obtain ⟨mo, et, ar, life, idle⟩ := cfg
+  cases life <;> cases st0 <;> simp [timeRemaining, age] at h ⊢
+  omega
 
 /-! ## Non-vacuity: concrete histories meeting the hypotheses -/
 
